@@ -67,7 +67,7 @@ def rand_plain(rng, maxlen):
 def rand_encoded(rng, maxlen):
     """decoder input: valid triplets, truncated / non-hex ones, %%, %00, embedded NUL"""
     n = rng.choice([0, 1, 2, 3, 4, 6, 10, 30]) if rng.random() < 0.85 else rng.randrange(0, maxlen // 3 + 1)
-    bad_rate = rng.choice([0.0, 0.0, 0.05, 0.3])
+    bad_rate = rng.choice([0.0, 0.0, 0.0, 0.02, 0.2])
     parts = []
     for _ in range(n):
         k = rng.random()
@@ -91,10 +91,10 @@ def gen_cases(rng, n, tier="quick"):
             cases.append("sweep esc %d - %d" % (f, d))
         cases.append("sweep uri.dec - - %d" % d)
         cases.append("sweep unesc - - %d" % d)
-    # all 65536 two-byte strings: both decoders, the userinfo encoder, rfc1738_escape, rfc1738_escape_unescaped
-    deep = [("uri.dec", "-"), ("unesc", "-"), ("uri.rt", "ui"), ("esc", "3"), ("esc", "259")]
+    # all 65536 two-byte strings: both decoders, the userinfo encoder, rfc1738_escape (thorough: everything)
+    deep = [("uri.dec", "-"), ("unesc", "-"), ("uri.rt", "ui"), ("esc", "3")]
     if tier == "thorough":
-        deep += [("uri.rt", "path"), ("uri.rt", "unres")] + [("esc", str(f)) for f in (0, 2, 4, 7, 387)]
+        deep += [("uri.rt", "path"), ("uri.rt", "unres")] + [("esc", str(f)) for f in (0, 2, 4, 7, 259, 387)]
     for op, arg in deep:
         cases.append("sweep %s %s - 2" % (op, arg))
     if tier == "thorough":
@@ -126,10 +126,11 @@ def gen_cases(rng, n, tier="quick"):
                 cases.append("uri.rt %s %s" % (name, h))
             for f in FLAGS:
                 cases.append("esc %d %s" % (f, h))
-    for a in b"%0aF\x00g":                              # decoder inputs: '%' x y for all x, and around them
-        for b in range(256):
-            for c in (list(HEXD[:3]) + [0, 37, 103, 255]):
-                cases.append("uri.dec " + hx(bytes([37, b, c])))
+    for b in range(256):                                # decoder inputs: '%' x y for all x, and around them
+        for c in (list(HEXD[:3]) + [0, 37, 103, 255]):
+            cases.append("uri.dec " + hx(bytes([37, b, c])))
+            cases.append("uri.dec " + hx(bytes([97, 37, b, c, 37, 52, 49])))
+            for a in b"%0aF\x00g":
                 cases.append("unesc " + hx(bytes([37, b, c, a])))
     # --- random ---  (the explicit-buffer model of rfc1738_unescape costs n^2: escaped forms stay <= ~1 KB
     #     here, a handful of 4 KB ones follow)
@@ -319,8 +320,8 @@ def nontrivial(c, o):
 
 def run(res, tier):
     res.rule = ("in-harness sweeps compared with the model by digest: all byte strings of length <= 1 for every operation (3 URI "
-                "ignore sets, 7 rfc1738 flag sets, both decoders), all 65536 of length 2 for both decoders, the userinfo encoder, "
-                "rfc1738_escape and rfc1738_escape_unescaped (thorough: every operation; all of length 3 for the decoders, and for "
+                "ignore sets, 7 rfc1738 flag sets, both decoders), all 65536 of length 2 for both decoders, the userinfo encoder "
+                "and rfc1738_escape (thorough: every operation; all of length 3 for the decoders, and for "
                 "userinfo / rfc1738_escape with the first byte over 36 class representatives); single cases through the Python oracle: "
                 "all strings of length <= 1 and all pairs over a 32-symbol alphabet for every operation, '%'+2-byte decoder inputs, "
                 "random strings up to 4 KB, random ignore sets, decoder inputs mixing valid, truncated and non-hex triplets, %%, %00 and "
@@ -328,5 +329,5 @@ def run(res, tier):
     std.run_standard(res, PID, tier, area="quote", build_impl=c32.impl,
                      gen_cases=lambda rng, n: gen_cases(rng, n, tier), oracle=oracle,
                      corr_name="QuoteModel (uri_decode, rfc1738_unescape, tables from gen_bytemaps) vs src/anyp/Uri.cc, lib/rfc1738.cc",
-                     gens=["bytemaps"], n_quick=12000, n_thorough=300000, seed_salt=31, mutate=mutate,
+                     gens=["bytemaps"], n_quick=8000, n_thorough=300000, seed_salt=31, mutate=mutate,
                      kind_fn=kind, nontrivial_fn=nontrivial)
